@@ -107,6 +107,67 @@ Verdict schemaProp(Ctx& c) {
   return pbt::pass();
 }
 
+// ---- text chains: term references of depth >= 2 feeding text definitions, incremental term edits, then save/load/save --
+// (the resolved texts are part of the document: a stale one makes the loaded object, which resolves everything afresh,
+// serialise differently)
+Verdict textRoundtripProp(Ctx& c) {
+  const uint64_t idSeed = static_cast<uint64_t>(c.pick(1, 1000000));
+  const int n = c.ipick(3, 6);
+  static const char* forms[] = {"nomn,sing", "datv,plur", "gent,sing", "ablt,plur"};
+  auto refTo = [&](int j) { return "@{X" + std::to_string(j + 1) + "|" + forms[c.ipick(0, 3)] + "}"; };
+  auto termText = [&](int i) -> std::string {  // references only to lower indices: resolution is well defined
+    const int w = c.ipick(0, 4);
+    if (i == 0 || w == 0) return std::string("\xD1\x81\xD0\xBB\xD0\xBE\xD0\xB2\xD0\xBE") + std::to_string(c.ipick(1, 9));
+    if (w == 1) return "big " + refTo(i - 1);
+    if (w == 2) return refTo(c.ipick(0, i - 1)) + " of " + refTo(i - 1);
+    if (w == 3) return refTo(i - 1) + " @{-1|small}";
+    return "";
+  };
+  auto defText = [&]() -> std::string { const int w = c.ipick(0, 3); if (w == 0) return ""; if (w == 1) return "owner of " + refTo(c.ipick(0, n - 1)); if (w == 2) return refTo(c.ipick(0, n - 1)) + " and " + refTo(c.ipick(0, n)); return "plain"; };
+  struct TOp { int kind, target, aux; std::string text; };
+  std::vector<std::string> terms, defs;
+  for (int i = 0; i < n; ++i) { terms.push_back(termText(i)); defs.push_back(defText()); }
+  std::vector<TOp> ops;
+  const int nOps = c.ipick(1, 6);
+  for (int i = 0; i < nOps; ++i) {
+    TOp op; op.kind = c.ipick(0, 9); op.target = c.ipick(0, n - 1); op.aux = c.ipick(0, 3);
+    if (op.kind <= 3) op.text = termText(op.target);
+    else if (op.kind <= 5) op.text = std::string("form") + std::to_string(c.ipick(1, 5));
+    else if (op.kind <= 7) op.text = defText();
+    ops.push_back(op);
+  }
+  static const char* names[] = {"SetTerm", "SetTerm", "SetTerm", "SetTerm", "SetForm", "SetForm", "SetText", "SetText", "Rename", "Erase"};
+  c.show << "terms:"; for (int i = 0; i < n; ++i) c.show << " X" << i + 1 << "='" << terms[static_cast<size_t>(i)] << "'/'" << defs[static_cast<size_t>(i)] << "'";
+  c.show << " ops:"; for (auto& op : ops) c.show << " " << names[op.kind] << "(X" << op.target + 1 << ",'" << op.text << "')";
+  c.exec();
+  Executor ex(idSeed);
+  RSForm& f = ex.form;
+  std::vector<EntityUID> uids;
+  for (int i = 0; i < n; ++i) uids.push_back(f.Emplace(CstType::base));
+  for (int i = 0; i < n; ++i) { f.SetTermFor(uids[static_cast<size_t>(i)], terms[static_cast<size_t>(i)]); f.SetDefinitionFor(uids[static_cast<size_t>(i)], defs[static_cast<size_t>(i)]); }
+  bool chainEdit = false;
+  for (const auto& op : ops) {
+    const auto uid = uids[static_cast<size_t>(op.target)];
+    if (!f.Contains(uid)) continue;
+    if (op.kind <= 5) { const auto dependants = f.Texts().TermGraph().ExpandOutputs({uid}); if (dependants.size() > 1) { const auto defDeps = f.Texts().DefGraph().ExpandOutputs(dependants); if (defDeps.size() > dependants.size()) chainEdit = true; } }
+    if (op.kind <= 3) f.SetTermFor(uid, op.text);
+    else if (op.kind <= 5) f.SetTermFormFor(uid, op.text, ccl::lang::Morphology(std::string_view(forms[op.aux])));
+    else if (op.kind <= 7) f.SetDefinitionFor(uid, op.text);
+    else if (op.kind == 8) f.SetAliasFor(uid, "X" + std::to_string(20 + op.aux), true);
+    else f.Erase(uid);
+    const JSON j1 = JSON(f);
+    auto loaded = ccl::api::RSFormJA::FromJSON(j1.dump(1, ' ', false, JSON::error_handler_t::replace));
+    { const Verdict v = sameCore(f, loaded.data(), "schema"); if (v.kind != Verdict::PASS) return v; }
+    const bool acyclicTerms = !f.Texts().TermGraph().HasLoop();
+    if (!acyclicTerms) c.count("resolved-texts-unconstrained-cyclic-terms");
+    const std::string c1 = canonDump(j1, acyclicTerms), c2 = canonDump(JSON(loaded.data()), acyclicTerms);
+    CHECK(c1 == c2, "save-load-save", std::string("after ") + names[op.kind] + "(X" + std::to_string(op.target + 1) + "): re-serialising the loaded schema gives another document: " + firstDiff(c1, c2));
+  }
+  c.nontrivial = chainEdit;
+  if (chainEdit) c.label("term-edit-with-term-and-definition-dependants");
+  return pbt::pass();
+}
+
 // ---- models -----------------------------------------------------------------------------------------------
 struct ModelPlan {
   struct Base { std::vector<std::pair<int, std::string>> texts; bool viaAdd = false; };
@@ -222,6 +283,7 @@ Verdict modelProp(Ctx& c) {
 int main(int argc, char** argv) {
   std::vector<pbt::Prop> props;
   props.push_back({"schema_roundtrip", schemaProp, 1500, 25000, false, false, "schemas reached by editing histories"});
+  props.push_back({"text_roundtrip", textRoundtripProp, 800, 12000, false, false, "chains of term references feeding text definitions, incremental text edits, save/load/save after every edit"});
   props.push_back({"model_roundtrip", modelProp, 2500, 40000, false, false, "models with keyed base interpretations, structure data and calculated values"});
   return pbt::main(argc, argv, "C10", props);
 }
